@@ -191,6 +191,11 @@ impl Iterator for ManiaGradualDifficulty {
 
 impl ExactSizeIterator for ManiaGradualDifficulty {
     fn len(&self) -> usize {
+        // Without any objects there is nothing to iterate
+        if self.objects_is_circle.is_empty() {
+            return 0;
+        }
+
         self.diff_objects.len() + 1 - self.idx
     }
 }
